@@ -84,6 +84,31 @@ class RExec(EffExec):
                 self.write_place(stk, fr, t.a["dest"], v)
                 fr.bb = t.a["target"]
                 return None
+        if meth == "map" and base.startswith("Result::") and len(t.a["args"]) == 2:
+            res, clo = [self.operand(stk, fr, a) for a in t.a["args"]]
+            name = self.p.closures.get(clo.loc) if isinstance(clo, Closure) else None
+            if name is not None and isinstance(res, Enum):
+                fn = self.p.fn(name)
+                okc = (res.discr == 0) if not isinstance(res.discr, int) else z3.BoolVal(res.discr == 0)
+                errv = Enum("Result", 1, {1: [res.variants[1][0]]})
+                okv = res.variants[0][0]
+                gen = list(fr.gen)
+                fid = fr.fid + ((fr.fn.name, fr.bb),)
+                dest, target = t.a["dest"], t.a["target"]
+
+                def act_err(s2):
+                    f2 = s2[-1]
+                    self.write_place(s2, f2, dest, errv)
+                    f2.bb = target
+
+                def act_ok(s2):
+                    nf = Frame(fn, fid, {}, dest, target, gen=gen)
+                    nf.locals[1] = clo
+                    nf.locals[2] = okv
+                    nf.ret_wrap = lambda v: Enum("Result", 0, {0: [v]})
+                    s2.append(nf)
+
+                return ("forkx", [(z3.Not(okc), act_err), (okc, act_ok)])
         if meth in ("min", "max") and re.match(r"<(u8|u16|u32|u64|usize) as Ord>::", func) and t.a["target"] is not None:
             a, b = [self.operand(stk, fr, x) for x in t.a["args"]]
             if isinstance(a, z3.BitVecRef) and isinstance(b, z3.BitVecRef):
@@ -433,6 +458,149 @@ def check_open(mir_text, src, label, entry, readonly):
     return obs
 
 
+def check_file_open(mir_text, src):
+    """R6: Options::open reports an existing file as existing (so that the reopen branch, not the initialising
+    branch, runs on it) and never calls set_len on it"""
+    def init(ex, prog, fr):
+        opts = Sym("opts", "options::Options")
+        fr.locals[900] = opts
+        fr.locals[1] = LocalRef(("E",), 900, [])
+        fr.locals[2] = Sym("path", "P")
+        return {"opts": opts}
+
+    prog, ex, ends, ctx, fname = explore(mir_text, src, r"^open_options::<impl at [^>]*>::open$", init)
+    opts = ctx["opts"]
+    viol = []
+    n_paths = n_ok = n_exist = n_new = 0
+    for e in ends:
+        if e.kind != "done":
+            continue
+        n_paths += 1
+        effs = e.stack[0].locals.get("EFF", ())
+        is_err = is_err_of(e.info)
+        cn = opt_field(prog, opts, "create_new")
+        cr = opt_field(prog, opts, "create")
+        ex_calls = [x for x in effs if x["func"].endswith("::exists") and isinstance(x["result"], z3.BoolRef)]
+        if cn is None:
+            viol.append({"why": "create_new is not consulted"})
+            continue
+        not_cn = z3.Not(cn)
+        if cr is None:
+            existed = None  # the path returned before looking at `create`: only possible under create_new
+        elif ex_calls:
+            existed = z3.And(not_cn, z3.Or(z3.Not(cr), ex_calls[-1]["result"]))
+        else:
+            existed = z3.And(not_cn, z3.Not(cr))
+        if feasible(ex, e.guard, [z3.Not(is_err)]) != z3.sat:
+            continue
+        n_ok += 1
+        tup = e.info.variants[0][0]
+        flag = tup.f[0] if isinstance(tup, Tup) else None
+        if not isinstance(flag, (z3.BoolRef, bool)):
+            viol.append({"why": "result is not (bool, File)"})
+            continue
+        if isinstance(flag, bool):
+            flag = z3.BoolVal(flag)
+        if existed is not None and feasible(ex, e.guard, [z3.Not(is_err), existed]) == z3.sat:
+            n_exist += 1
+            ok, _ = prove(ex, e.guard, [z3.Not(is_err), existed], z3.Not(flag))
+            if not ok:
+                viol.append({"why": "an existing file can be reported as newly created: the open would wipe and re-initialise it"})
+            for x in effs:
+                if "set_len" in x["func"] or any(m in x["func"] for m in FILE_MUTATORS):
+                    viol.append({"call": x["func"], "why": "file-level mutator inside Options::open on an existing file"})
+        fresh_c = z3.Not(existed) if existed is not None else z3.BoolVal(True)
+        if feasible(ex, e.guard, [z3.Not(is_err), fresh_c]) == z3.sat:
+            n_new += 1
+            ok, _ = prove(ex, e.guard, [z3.Not(is_err), fresh_c], flag)
+            if not ok:
+                viol.append({"why": "a file that did not exist can be reported as existing (its header would never be written)"})
+    return [dict(function=fname, paths=n_paths, ok_paths=n_ok, id="R6",
+                 text="Options::open: a file that exists (create_new unset, and create unset or Path::exists) is reported as existing and is not resized or rewritten by the open itself; a new file is reported as new (accepting paths: existing %d, new %d)" % (n_exist, n_new),
+                 holds=not viol, witnesses=viol[:4], vacuous=(n_exist == 0 or n_new == 0))]
+
+
+def struct_field_types(src, fname, sname):
+    """field name -> declared type text of `struct sname` in src/fname (source text, comments and attributes skipped)"""
+    import os
+    txt = open(os.path.join(src, fname)).read()
+    m = re.search(r"\bstruct\s+%s(?:<[^{]*>)?\s*\{(.*?)\n\}" % sname, txt, re.S)
+    if not m:
+        raise Unsupported("struct %s not found in %s" % (sname, fname))
+    body = re.sub(r"//[^\n]*", "", m.group(1))
+    body = re.sub(r"#\[[^\]]*\]", "", body)
+    out = {}
+    for part in mir.split_top(body):
+        mm = re.match(r"\s*(?:pub(?:\([a-z]+\))?\s+)?([a-z_][A-Za-z0-9_]*)\s*:\s*(.+?)\s*$", part, re.S)
+        if mm:
+            out[mm.group(1)] = re.sub(r"\s+", " ", mm.group(2))
+    return out
+
+
+ARENA_FROM = (("freelist", "freelist"), ("reserved", "reserved"), ("cap", "cap"), ("unify", "unify"), ("magic_version", "magic_version"),
+              ("version", "version"), ("ro", "read_only"), ("max_retries", "max_retries"), ("data_offset", "data_offset"))
+
+
+def check_arena_from(mir_text, src, flavour):
+    """R7: the arena value built from the (re)opened Memory reports the Memory's values, and building it stores nothing"""
+    types = struct_field_types(src, "memory.rs", "Memory")
+
+    def init(ex, prog, fr):
+        names = prog.structs.get(("memory", "Memory"))
+        if not names:
+            raise Unsupported("struct Memory not found")
+        vals = []
+        for n in names:
+            ty = types.get(n, "?")
+            ty = {"usize": "usize"}.get(ty, ty)
+            vals.append(ex.synth(ty, "mem." + n))
+        fr.locals[1] = Tup(vals)
+        return {"mem": dict(zip(names, vals))}
+
+    prog, ex, ends, ctx, fname = explore(mir_text, src, r"^%s::<impl at [^>]*>::from$" % flavour, init)
+    mem = ctx["mem"]
+    anames = prog.structs.get((flavour, "Arena"))
+    if not anames:
+        raise Unsupported("struct %s::Arena not found" % flavour)
+    viol = []
+    n_paths = n_ok = 0
+    for e in ends:
+        if e.kind != "done":
+            continue
+        n_paths += 1
+        if feasible(ex, e.guard) != z3.sat:
+            continue
+        n_ok += 1
+        effs = e.stack[0].locals.get("EFF", ())
+        for x in effs:
+            if x["kind"] == "write":
+                viol.append({"call": x["func"], "why": "store while building the arena value from the opened Memory"})
+        ar = e.info
+        if not isinstance(ar, Tup) or len(ar.f) != len(anames):
+            viol.append({"why": "result is not an Arena aggregate"})
+            continue
+        got = dict(zip(anames, ar.f))
+        for an, mn in ARENA_FROM:
+            if an not in got or mn not in mem:
+                viol.append({"field": an, "why": "field missing (Arena.%s / Memory.%s)" % (an, mn)})
+                continue
+            have, want = got[an], mem[mn]
+            if isinstance(have, z3.BitVecRef) and isinstance(want, z3.BitVecRef) and have.size() < want.size():
+                want = z3.Extract(have.size() - 1, 0, want)
+            if isinstance(want, (Sym,)) or isinstance(have, Sym):
+                okf = have is want
+            elif an == "unify":
+                # Memory::unify() is `self.unify || flag.contains(ON_DISK)`: a Memory whose unify field is set (every file-backed one) must be reported unified
+                okf, _ = prove(ex, e.guard, [want], same(have, True))
+            else:
+                okf, _ = prove(ex, e.guard, [], same(have, want))
+            if not okf:
+                viol.append({"field": an, "have": repr(have)[:100], "why": "the arena does not report the opened Memory's `%s`" % mn})
+    return [dict(function=fname, paths=n_paths, ok_paths=n_ok, id="R7" + ("s" if flavour == "sync" else "u"),
+                 text="%s::Arena::from(Memory): freelist, reserved, cap, unify, magic_version, version, read-only flag, max_retries and data_offset of the arena are the opened Memory's, nothing is stored" % flavour,
+                 holds=not viol, witnesses=viol[:4])]
+
+
 def check_unmount(mir_text, src):
     def init(ex, prog, fr):
         names = prog.structs.get(("memory", "Memory"))
@@ -515,6 +683,9 @@ def main():
         out["obligations"] += check_open(mir_text, src, "map_mut_in", r"::map_mut_in$", False)
         out["obligations"] += check_open(mir_text, src, "map_in", r"::map_in$", True)
         out["obligations"] += check_unmount(mir_text, src)
+        out["obligations"] += check_file_open(mir_text, src)
+        out["obligations"] += check_arena_from(mir_text, src, "sync")
+        out["obligations"] += check_arena_from(mir_text, src, "unsync")
     except Unsupported as e:
         out["error"] = "unsupported MIR construct: " + str(e)
     out["wall_s"] = round(time.time() - t0, 1)
